@@ -36,6 +36,9 @@ for _p in ("C01", "C02", "C03", "C04", "C05", "C06", "C07", "C08"):
     EXTRA_TB[_p] = list(ENGINE_TB)
 
 ASSUME = {
+    "C02": ["CASE conditions must be operator-built booleans (a bool column as a CASE/WHERE condition is an error in this engine); NULL handling is left-biased (missing + 'x' = NULL, 'x' + missing = error) and the specification states that order explicitly",
+            "`SELECT *` combined with an item aliased `<-`: Go deletes the `<-` key in a post-processor, the model keeps it; such aliases are not generated"],
+    "C11": ["the generic trace theorem is tied to the Go source by the regenerated mutation-site obligation (syntactic, intraprocedural provenance; audited entries justified in Gen/SiteRules.v) and by deep comparison of the document after every generated query, incl. queries failing part-way; the Go runtime's map/slice aliasing semantics are as Go specifies"],
     "C03": ["grouping claims for object rows whose key values are NULL/missing, bool, string or a non-NaN number (rows_ok); arrays/objects as key values make Go's == panic (error) and are not generated",
             "FloatEqLaws / FloatLtLaws are premises (proved from the stdlib FloatAxioms eqb_spec/ltb_spec in Proofs/C03FloatEq.v)",
             "engine quirks mirrored, outside the property text: AVG divides by the entry count including NULLs; COUNT(col) counts NULLs; MIN/MAX start from +-MaxFloat64"],
@@ -76,6 +79,7 @@ CONFIG = {
     "C15": {"shard": 1200},
     "C09": {"shard": 200},
     "C17": {"shard": 400},
+    "C11": {"shard": 300}, "C10": {"shard": 300}, "C12": {"shard": 150},
     "C01": {"shard": 120}, "C02": {"shard": 120}, "C03": {"shard": 100}, "C04": {"shard": 110},
     "C05": {"shard": 120}, "C06": {"shard": 100}, "C07": {"shard": 100}, "C08": {"shard": 100},
 }
